@@ -2,6 +2,7 @@
 import SuplaVerif.Model.Debounce
 import SuplaVerif.Gen.Consts
 import Driver.Common
+import Driver.InputAt
 namespace Driver.DebounceDrv
 open SuplaVerif Driver
 
@@ -17,12 +18,12 @@ def go (m : Nat) : Deb → Bool → List Char → List String
     | some n => if n ≠ cur then stepLine :: s!"NOTIFY {b2n n}" :: go m r.1 n cs else stepLine :: go m r.1 cur cs
     | none => stepLine :: go m r.1 cur cs
 
-def step (_ : Unit) (toks : List String) : Unit × List String :=
+def step (a : InputAtDrv.St) (toks : List String) : InputAtDrv.St × List String :=
   match toks with
   | ["debprobe", inst, st, val, bits] =>
     let d : Deb := { step := st.toNat?.getD 0, value := val == "1" }
-    ((), s!"INSTATE {inst}" :: go Gen.inputMinCycle d.edge (inst == "1") bits.toList)
-  | _ => ((), [])
+    (a, s!"INSTATE {inst}" :: go Gen.inputMinCycle d.edge (inst == "1") bits.toList)
+  | _ => InputAtDrv.step a toks
 
-def main : IO Unit := do loop (← IO.getStdin) () step
+def main : IO Unit := do loop (← IO.getStdin) {} step
 end Driver.DebounceDrv
